@@ -386,7 +386,8 @@ def r3(ctx):
             w = drains[0]
             # first node(s) of the loop body: where the true edge of the loop condition leads
             wt = [t for t in g.tests() if t.stmt is w]
-            first = [b for t in wt for b, l in t.out if l == "true" and b not in wt]
+            # (the successor that lies inside the loop body, whatever the polarity the CFG gave the condition: `while not done and ..`)
+            first = [b for t in wt for b, l in t.out if l in ("true", "false") and b not in wt and b.ast is not None and any(a is w for a in f.module.ancestors(b.ast))]
             if not wt:
                 hd0 = [n for n in g.nodes_of(w) if n.kind == "join"]
                 first = [b for h in hd0 for b, l in h.out if l == "next"]
@@ -408,7 +409,11 @@ def r3(ctx):
                 # stop -- are the time-out, not a decision about the pools)
                 post = set(n.id for n in g.nodes if n.ast is not None and n.kind in ("stmt", "for", "test", "with") and getattr(n.ast, "_ord", 0) > max(getattr(x, "_ord", 0) for x in ast.walk(w) if isinstance(x, (ast.stmt, ast.expr)))
                            and not any(a is w for a in f.module.ancestors(n.ast)))
-                outs = [o for o in outs if not any(n.id in post for n in o.path)]
+                # (... recognised by the forced stop itself -- `server.stop()` / `kill()` behind the loop --, not by merely touching
+                # a statement behind the loop: a flag-controlled loop falls out of its condition and skips the forced stop by a test)
+                forced = set(n.id for n in g.nodes if n.id in post and n.ast is not None and
+                             any(isinstance(c, ast.Call) and isinstance(c.func, ast.Attribute) and c.func.attr in ("stop", "kill") for root in (n.cover or [n.ast]) for c in ast.walk(root)))
+                outs = [o for o in outs if not any(n.id in forced for n in o.path)]
                 got = set("stop-draining" if o.kind == "return" else ("keep-draining" if o.kind == "stop" else o.kind) for o in outs)
                 want = "keep-draining" if any(pattern) else "stop-draining"
                 ctx.check("C04.R3", got == {want}, key(f, "gevent-drain|%s" % (pattern,)), site(f, text="listeners busy=%s" % (pattern,)),
